@@ -8,7 +8,7 @@
    that peer (any cancel / update / new requests, any request ids, any extensions, any hook results),
    or the message queue's report (stream closed, sent, network error) about a message built for it. *)
 From Coq Require Import List NArith Bool.
-From GS Require Import Base RespMgrMsg RespMgrMsgProofs.
+From GS Require Import Base RespMgrMsg RespMgrMsgProofs RespMgrMsgTaskProofs.
 Import ListNotations.
 Open Scope N_scope.
 
@@ -70,6 +70,35 @@ Theorem C10_owner_update : forall p code ur ext sl en,
                    e_updates en' = e_updates en ++ [{| u_code := code; u_res := ur; u_ext := ext |}].
 Proof. exact owner_update_effect. Qed.
 Print Assumptions C10_owner_update.
+
+(* Frame for every label that is foreign in the run-time monitor's sense (mforeign): besides another
+   peer's messages and send reports, a task start, an executor step (with or without its FinishTask
+   held) or a late FinishTask under another peer's name.  With the owner check in startTask /
+   finishTask, in every state in which p owns X and no executor started under another peer's name holds
+   p's request (exec_sep: request objects are distinct in Go; the model's tags could collide in an
+   arbitrary state), p's view of X's slot - the table entry with its signals, updates and stream, p's
+   own parked executors, p's own task-queue row - is unchanged, and nothing is output for p under X.
+   The other peer's own task-queue row / executor under X may go: that is its task being retired. *)
+Theorem C10_frame_tasks : forall p X s l,
+  mforeign p l = true -> owned_sl p (sget X s) = true -> exec_sep p (sget X s) ->
+  same_view p (sget X (fst (step fixed s l))) (sget X s) /\ quiet_for p (outs_at X (snd (step fixed s l))).
+Proof. exact c10_mframe. Qed.
+Print Assumptions C10_frame_tasks.
+
+(* Without that check (c_task off, the code before commit 55563c9) it fails: corpus/resppeer/w7 - peer
+   2's response 1 ends, its FinishTask is held, the sent reports retire the entry, peer 1 takes id 1,
+   the late FinishTask marks peer 1's queued entry CompletingSend. *)
+Definition no_task_check : cfg :=
+  {| c_cancel := true; c_update := true; c_new := true; c_notif := true; c_task := false |}.
+Definition st_w7 : state :=
+  final no_task_check [] [LMsg 2 [RNew 1 1 HAccept false 1]; LStart 2 1; LStepH 2 1 1 BNone false;
+                          LSub true 2 1 1 14 1; LSub true 2 1 1 20 0; LMsg 1 [RNew 1 2 HAccept false 2]].
+Theorem C10_refuted_no_task_check :
+  (mforeign 1 (LFinish 2 1 0) = true) /\ (owned_sl 1 (sget 1 st_w7) = true) /\ exec_sep 1 (sget 1 st_w7) /\
+  (option_map e_state (sl_ent (sget 1 st_w7)) = Some Queued) /\
+  (option_map e_state (sl_ent (sget 1 (fst (step no_task_check st_w7 (LFinish 2 1 0))))) = Some Completing) /\
+  (option_map e_state (sl_ent (sget 1 (fst (step fixed st_w7 (LFinish 2 1 0))))) = Some Queued).
+Proof. vm_compute. repeat split; intros; contradiction. Qed.
 
 (* ---- the pinned code violates the property: four witnesses (replayed on the real code by
    corpus/resppeer/w1..w4 before the fix) ---- *)
